@@ -60,7 +60,7 @@ def plan(tier):
         "shards": 16,
         "budget_s": 50 if q else 700,
         "timeout_s": 600 if q else 3600,
-        "min_nontrivial": 30 if q else 1500,
+        "min_nontrivial": 30 if q else 500,
         "required_counters": ["roundtrip_compared", "copy_compared", "two_loads_compared", "sharing_probed",
                               "mutation_probed", "sql_rows_compared", "tokens_compared", "cwl_workflows",
                               "graph_workflows", "token_forests"],
